@@ -100,20 +100,22 @@ Proof.
   - intros Hq Hd. impl_elim Q ltac:(rewrite Hq, Hd; reflexivity). apply Z.eqb_eq in Q. lia.
 Qed.
 
+Lemma res_off_tree c : res_off src_tree c = false.
+Proof. unfold res_off. apply andb_false_r. Qed.
+
 Lemma c10_res_family : forall c, In c family -> forall sched, Forall allowed sched ->
   let s := final src_tree c sched in let g := summ src_tree c sched in
   0 <= g_res_min g /\ g_res g <= 1 /\ rc s = g_res g /\ (cleaned s = true -> g_res g = 0) /\
-  (c_max_retries c <> 0 -> (reserved s = true <-> g_res g = 1)).
+  (reserved s = true <-> g_res g = 1).
 Proof.
   intros c Hc sched Hs s g. fam_conj c sched Hc Hs. unfold good_c10_res in G4. cbn [i_st i_gs summary_of] in G4.
   fold (final src_tree c sched) in G4. fold s in G4. fold (trace src_tree c sched) in G4. fold (summ src_tree c sched) in G4. fold g in G4.
+  rewrite res_off_tree in G4.
   repeat match type of G4 with (_ && _) = true => let H2 := fresh "J" in apply andb_prop in G4 as [G4 H2] end.
   apply Z.leb_le in G4. apply Z.leb_le in J2. apply Z.eqb_eq in J1. repeat split; auto.
   - intros Hcl. impl_elim J ltac:(assumption). now apply Z.eqb_eq.
-  - intros Hr. destruct (c_max_retries c =? 0) eqn:E; [apply Z.eqb_eq in E; contradiction|].
-    apply Bool.eqb_prop in J0. rewrite J0 in Hr. now apply Z.eqb_eq.
-  - intros Hr. destruct (c_max_retries c =? 0) eqn:E; [apply Z.eqb_eq in E; contradiction|].
-    apply Bool.eqb_prop in J0. rewrite J0. now apply Z.eqb_eq.
+  - intros Hr. apply Bool.eqb_prop in J0. rewrite J0 in Hr. now apply Z.eqb_eq.
+  - intros Hr. apply Bool.eqb_prop in J0. rewrite J0. now apply Z.eqb_eq.
 Qed.
 
 (* ---------- C14 ---------- *)
@@ -158,8 +160,38 @@ Lemma c17_retry_family : forall c, In c family -> forall sched, Forall allowed s
 Proof.
   intros c Hc sched Hs g. fam_conj c sched Hc Hs. unfold good_c17 in G. cbn [i_st i_gs summary_of] in G.
   fold (trace src_tree c sched) in G. fold (summ src_tree c sched) in G. fold g in G.
-  apply andb_prop in G as [G F]. apply andb_prop in G as [G U]. apply andb_prop in G as [B A].
+  apply andb_prop in G as [G X]. apply andb_prop in G as [G F]. apply andb_prop in G as [G U]. apply andb_prop in G as [B A].
   apply Nat.leb_le in B. apply negb_true_iff in A. apply negb_true_iff in U. apply negb_true_iff in F. auto.
+Qed.
+
+(* every response the retry state judges is judged with its own status - also in the HTTP flavour, where the status travels through
+   the x-mosn-status variable of the request context, which is never cleared between attempts ([x_stale] is raised by
+   onUpstreamHeaders when the variable does not hold the status of the response in hand) *)
+Lemma c17_own_status_family : forall c, In c family -> forall sched, Forall allowed sched ->
+  x_stale (final src_tree c sched) = false.
+Proof.
+  intros c Hc sched Hs. fam_conj c sched Hc Hs. unfold good_c17 in G. cbn [i_st i_gs summary_of] in G.
+  apply andb_prop in G as [G X]. now apply negb_true_iff in X.
+Qed.
+
+Lemma fam_http_in_family : forall c, In c fam_http -> In c family.
+Proof.
+  intros c H. unfold family. apply in_or_app; right. apply in_or_app; right. apply in_or_app; right. apply in_or_app; right.
+  apply in_or_app; right. exact H.
+Qed.
+
+(* non-vacuity for the HTTP flavour: 503 (retried), then silence until the global time-out: two attempts, the 504 local reply *)
+Lemma c17_http_example_holds :
+  let c := mk false false false RouteForward 2 true 2 [503] false 0 [] [] [] <| c_http := true |> in
+  let sched := repeat Worker 12 ++ [Env (EvUpResp 0 503 false false)] ++ drive ++ [Env EvGlobal] ++ drive in
+  In c family /\ Forall allowed sched /\ g_new (summ src_tree c sched) = 2%nat /\
+  g_reply_kind (summ src_tree c sched) = Some (KHijack, 504) /\ g_ended (summ src_tree c sched) = true /\
+  quiescent (final src_tree c sched) = true /\ cleaned (final src_tree c sched) = true.
+Proof.
+  cbn zeta. split; [|split].
+  - apply fam_http_in_family. vm_compute. repeat (first [left; reflexivity | right]).
+  - repeat (apply Forall_app; split); try apply allowed_drive; repeat (apply Forall_cons || apply Forall_nil); cbn; auto.
+  - vm_compute. repeat split; reflexivity.
 Qed.
 
 (* C10: upstream streams *)
